@@ -309,13 +309,14 @@ where
         self.array.to_mut().retain(|x| {
             if self.sorted && other.sorted {
                 //optimisation if both are sorted
+                //(the index is relative to the slice searched; the element found stays in range for equal successors)
                 match other.array[offset..].binary_search(x) {
                     Ok(index) => {
-                        offset = index + 1;
+                        offset += index;
                         true
                     }
                     Err(index) => {
-                        offset = index + 1;
+                        offset += index;
                         false
                     }
                 }
